@@ -465,7 +465,7 @@ func genMalformed(r *core.Rand, cases int, emit func([]string)) {
 				}
 			}
 		case 4, 5: // not gRPC
-			ct := r.Pick("application/grpc+proto", "application/json", "Application/grpc", "application/grpc ", "text/html")
+			ct := r.Pick("application/grpc-web+proto", "application/json", "Application/grpc", "application/grpc ", "text/html")
 			hs = []hf{{":status", "200"}, {"content-type", ct}, {"grpc-encoding", enc}}
 			if r.Chance(1, 4) {
 				hs = []hf{{"Content-Type", "application/grpc"}} // the name is compared as is
